@@ -126,7 +126,11 @@ func (g *ArrayFieldGenerator) Generate(value client.NormalValue, f func(client.N
 type JSONFieldGenerator struct{}
 
 func (g *JSONFieldGenerator) Generate(value client.NormalValue, f func(client.NormalValue) error) error {
-	json, _ := value.JSON()
+	json, ok := value.JSON()
+	if !ok || json == nil {
+		// the field is null (or absent): index the null like every other kind does
+		return f(value)
+	}
 	return client.TraverseJSON(json, func(value client.JSON) error {
 		val, err := client.NewNormalValue(value)
 		if err != nil {
